@@ -19,7 +19,14 @@
      has_gate (bc s') PLACEHOLDER_STR = false     for add_mul_wallace, whose matrix marks empty cells with the
                                                   string '_PLACEHOLDER_STR_'
    Both hold whenever the labels of the circuit are non-empty and differ from the placeholder (the labels
-   produced by generate_random_label always do). *)
+   produced by generate_random_label always do).
+
+   TWO KINDS OF STATEMENTS.  `C08_<mode>_exact` speaks about an arbitrary successful run (every naming
+   function).  `C08_<mode>_total_exact` (last section) is unconditional: for every INJECTIVE naming function,
+   every host and all non-empty lists of existing operand gates the generator returns Ok, with exactly the
+   stated number of bits, and the bits decode to the product; there the two label side conditions are asked of
+   the HOST and of the naming function (`forall k, fresh k <> ""`), from which they follow for the final
+   circuit because generators only add gates under counter labels (C08_new_gates_carry_counter_labels). *)
 Require Import Cirbo.Model.Base Cirbo.Model.Gate Cirbo.Model.Den Cirbo.Model.Circuit
   Cirbo.Model.Eval Cirbo.Model.Sem Cirbo.Model.Builder.
 Require Import Cirbo.Generated.ArithTables Cirbo.Generated.ArithCells.
@@ -27,7 +34,8 @@ Require Import Cirbo.Model.ArithSub Cirbo.Model.ArithSum2 Cirbo.Model.ArithSumN 
   Cirbo.Model.ArithGen Cirbo.Model.SumCases Cirbo.Model.ArithMul Cirbo.Model.ArithSquare Cirbo.Model.MulCases.
 Require Import Cirbo.Proofs.BuilderFacts Cirbo.Proofs.ArithFacts Cirbo.Proofs.ArithGenFacts
   Cirbo.Proofs.ArithSumStruct Cirbo.Proofs.ArithMulPow2 Cirbo.Proofs.ArithSquareFacts Cirbo.Proofs.ArithMulLen
-  Cirbo.Proofs.ArithMulStruct Cirbo.Proofs.ArithMulFinal.
+  Cirbo.Proofs.ArithMulFinal Cirbo.Proofs.TotalFacts Cirbo.Proofs.FreshOnly Cirbo.Proofs.ArithMulTotalFinal.
+Require Import Coq.Logic.FinFun.
 Open Scope Z_scope.
 
 (* ---- the builder layer (shared with C07 / C09) --------------------------------------------------------- *)
@@ -75,20 +83,22 @@ Theorem C08_mul_dadda_exact : forall fresh xs ys be s rs s',
     exists rv, bvals (bc s') asg rs rv /\ decode be rv = decode be xv * decode be yv.
 Proof. exact add_mul_dadda_final. Qed.
 
-(* FULL STATEMENT (Wallace): as below with  length rs = mul_len (length xs) (length ys).
-   Proved (for the code repaired by fixes/D29.patch, see Model/ArithMul.v): the product for all widths and
-   length rs <= mul_len; that the final shifted adder returns at least n + m bits, so that equality holds,
-   is computed for every width pair <= 6 and checked by the direct oracle on every run.
+(* Wallace (the code repaired by fixes/D29.patch, see Model/ArithMul.v): the product for all widths and EXACTLY
+   mul_len result bits.  The length needs the placeholder side condition as well: a gate that happened to be
+   called '_PLACEHOLDER_STR_' would be taken for an empty cell and could shorten the last two rows.  (That the
+   final shifted adder always returns n + m bits is proved by showing that the occupancy pattern of the cell
+   matrix depends on the widths only and by evaluating one witness run per width pair on the all-ones
+   operands, whose product needs n + m bits.)
    On the pinned code the product is WRONG for n = 2, m >= 11 (e.g. 3 * 704 = 1088): empty cells between
    gates of the last two rows were skipped. *)
-Theorem C08_mul_wallace_partial : forall fresh xs ys be s rs s',
+Theorem C08_mul_wallace_exact : forall fresh xs ys be s rs s',
   run fresh (add_mul_wallace xs ys be) s = Ok (rs, s') ->
   ext (bc s) (bc s') /\ inputs (bc s') = inputs (bc s) /\ outputs (bc s') = outputs (bc s) /\
-  (length rs <= mul_len (length xs) (length ys))%nat /\
   (has_gate (bc s') PLACEHOLDER_STR = false ->
+   ((1 <= length xs)%nat -> length rs = mul_len (length xs) (length ys)) /\
    forall asg xv yv, bvals (bc s) asg xs xv -> bvals (bc s) asg ys yv ->
      exists rv, bvals (bc s') asg rs rv /\ decode be rv = decode be xv * decode be yv).
-Proof. exact add_mul_wallace_final. Qed.
+Proof. exact add_mul_wallace_final_exact. Qed.
 
 Theorem C08_mul_pow2_m1_exact : forall fresh xs ys be s rs s',
   run fresh (add_mul_pow2_m1 xs ys be) s = Ok (rs, s') ->
@@ -166,32 +176,114 @@ Theorem C08_generate_square : forall fresh k0 ins t be c,
     exists rv, bvals c asg (outputs c) rv /\ decode be rv = decode be bs * decode be bs.
 Proof. exact generate_square_correct. Qed.
 
-(* ---- computed structure: the generators return, with the stated number of bits ------------------------------------ *)
-(* every multiplication function x every width pair (n, m) <= 6 on the bare circuit: Ok, length = mul_len n m,
-   neither "" nor the placeholder is a gate of the result (what mul_struct_ok says: C08_struct_meaning).
-   (The bound is small because the thorough tier re-checks these computations with coqchk, which has no
-   bytecode VM; wider shapes - up to 10 x 10 on every run, the Karatsuba recursion at 18..64 and the squarer's
-   split at 48..97 - return Ok in the correspondence runs.) *)
-Theorem C08_modes_return_with_the_stated_length_upto6 :
-  forallb (fun f => forallb (mul_struct_ok f) (pairs_upto 6)) all_mul_fns = true.
-Proof. exact mul_struct_upto6. Qed.
+(* ---- termination: the generators return, for ALL widths -------------------------------------------------------------- *)
+(* `all_exist c ls`: every label of ls names a gate of c.  Hypotheses: the naming function of the uuid counter is
+   injective (Python: uuid4 does not repeat), the operand lists are non-empty (the code raises IndexError /
+   ValueError / AssertionError on an empty operand, or - add_mul_wallace with an empty second operand - does not
+   terminate) and name gates of the host.  Conclusion: the run returns Ok (the fuel of every modelled `while`
+   loop suffices, no IndexError / AssertionError path is taken), the result has exactly mul_len / sq_len labels
+   and decodes to the product / square. *)
+Theorem C08_new_gates_carry_counter_labels : forall fresh xs ys be t s rs s',
+  run fresh (process_mul t xs ys be) s = Ok (rs, s') ->
+  forall l, has_gate (bc s') l = true -> has_gate (bc s) l = true \/ exists k, l = fresh k.
+Proof. exact (fun fresh xs ys be t => fo_labels fresh _ (fo_process_mul t xs ys be)). Qed.
 
-Theorem C08_squares_return_upto8 :
-  forallb (square_struct_ok SDefault) (seq 1 8) && forallb (square_struct_ok SPow2m1) (seq 1 8) = true.
-Proof. exact square_struct_upto8. Qed.
+Theorem C08_mul_default_total_exact : forall fresh, Injective fresh -> forall xs ys be s,
+  xs <> [] -> ys <> [] -> all_exist (bc s) xs -> all_exist (bc s) ys ->
+  exists rs s', run fresh (add_mul xs ys be) s = Ok (rs, s') /\
+    ext (bc s) (bc s') /\ inputs (bc s') = inputs (bc s) /\ outputs (bc s') = outputs (bc s) /\
+    length rs = mul_len (length xs) (length ys) /\
+    forall asg xv yv, bvals (bc s) asg xs xv -> bvals (bc s) asg ys yv ->
+      exists rv, bvals (bc s') asg rs rv /\ decode be rv = decode be xv * decode be yv.
+Proof. exact add_mul_total_exact. Qed.
 
-Theorem C08_struct_meaning :
-  (forall f n m, mul_struct_ok f (n, m) = true ->
-     exists c rs s',
-       bare (n + m) = Ok c /\
-       run hex_label (run_mulfn f (firstn n (in_labels (n + m) 0)) (skipn n (in_labels (n + m) 0)) false) (mkB c 1)
-         = Ok (rs, s') /\
-       length rs = mul_len n m /\ has_gate (bc s') "" = false /\ has_gate (bc s') PLACEHOLDER_STR = false) /\
-  (forall t n, square_struct_ok t n = true ->
-     exists c rs s',
-       bare n = Ok c /\ run hex_label (process_square t (in_labels n 0) false) (mkB c 1) = Ok (rs, s') /\
-       length rs = sq_len n /\ has_gate (bc s') "" = false).
-Proof. exact (conj mul_struct_ok_meaning square_struct_ok_meaning). Qed.
+Theorem C08_mul_alter_total_exact : forall fresh, Injective fresh -> forall xs ys be s,
+  xs <> [] -> ys <> [] -> all_exist (bc s) xs -> all_exist (bc s) ys ->
+  exists rs s', run fresh (add_mul_alter xs ys be) s = Ok (rs, s') /\
+    ext (bc s) (bc s') /\ inputs (bc s') = inputs (bc s) /\ outputs (bc s') = outputs (bc s) /\
+    length rs = mul_len (length xs) (length ys) /\
+    forall asg xv yv, bvals (bc s) asg xs xv -> bvals (bc s) asg ys yv ->
+      exists rv, bvals (bc s') asg rs rv /\ decode be rv = decode be xv * decode be yv.
+Proof. exact add_mul_alter_total_exact. Qed.
+
+Theorem C08_mul_dadda_total_exact : forall fresh, Injective fresh -> forall xs ys be s,
+  xs <> [] -> ys <> [] -> all_exist (bc s) xs -> all_exist (bc s) ys ->
+  exists rs s', run fresh (add_mul_dadda xs ys be) s = Ok (rs, s') /\
+    ext (bc s) (bc s') /\ inputs (bc s') = inputs (bc s) /\ outputs (bc s') = outputs (bc s) /\
+    length rs = mul_len (length xs) (length ys) /\
+    forall asg xv yv, bvals (bc s) asg xs xv -> bvals (bc s) asg ys yv ->
+      exists rv, bvals (bc s') asg rs rv /\ decode be rv = decode be xv * decode be yv.
+Proof. exact add_mul_dadda_total_exact. Qed.
+
+Theorem C08_mul_wallace_total_exact : forall fresh, Injective fresh -> forall xs ys be s,
+  (forall k, fresh k <> PLACEHOLDER_STR) -> has_gate (bc s) PLACEHOLDER_STR = false ->
+  xs <> [] -> ys <> [] -> all_exist (bc s) xs -> all_exist (bc s) ys ->
+  exists rs s', run fresh (add_mul_wallace xs ys be) s = Ok (rs, s') /\
+    ext (bc s) (bc s') /\ inputs (bc s') = inputs (bc s) /\ outputs (bc s') = outputs (bc s) /\
+    length rs = mul_len (length xs) (length ys) /\
+    forall asg xv yv, bvals (bc s) asg xs xv -> bvals (bc s) asg ys yv ->
+      exists rv, bvals (bc s') asg rs rv /\ decode be rv = decode be xv * decode be yv.
+Proof. exact add_mul_wallace_total_exact. Qed.
+
+Theorem C08_mul_pow2_m1_total_exact : forall fresh, Injective fresh -> (forall k, fresh k <> ""%string) ->
+  forall xs ys be s, has_gate (bc s) "" = false ->
+  xs <> [] -> ys <> [] -> all_exist (bc s) xs -> all_exist (bc s) ys ->
+  exists rs s', run fresh (add_mul_pow2_m1 xs ys be) s = Ok (rs, s') /\
+    ext (bc s) (bc s') /\ inputs (bc s') = inputs (bc s) /\ outputs (bc s') = outputs (bc s) /\
+    length rs = mul_len (length xs) (length ys) /\
+    forall asg xv yv, bvals (bc s) asg xs xv -> bvals (bc s) asg ys yv ->
+      exists rv, bvals (bc s') asg rs rv /\ decode be rv = decode be xv * decode be yv.
+Proof. exact add_mul_pow2_m1_total_exact. Qed.
+
+(* MulMode.KARATSUBA: the recursion on the width terminates within the fuel max(n, m) + 1 *)
+Theorem C08_mul_karatsuba_total_exact : forall fresh, Injective fresh -> forall xs ys be s,
+  xs <> [] -> ys <> [] -> all_exist (bc s) xs -> all_exist (bc s) ys ->
+  exists rs s', run fresh (add_mul_karatsuba_with_efficient_sum xs ys be) s = Ok (rs, s') /\
+    ext (bc s) (bc s') /\ inputs (bc s') = inputs (bc s) /\ outputs (bc s') = outputs (bc s) /\
+    length rs = mul_len (length xs) (length ys) /\
+    forall asg xv yv, bvals (bc s) asg xs xv -> bvals (bc s) asg ys yv ->
+      exists rv, bvals (bc s') asg rs rv /\ decode be rv = decode be xv * decode be yv.
+Proof. exact add_mul_karatsuba_eff_total_exact. Qed.
+
+Theorem C08_mul_karatsuba_pow2_total_exact : forall fresh, Injective fresh -> (forall k, fresh k <> ""%string) ->
+  forall xs ys be s, has_gate (bc s) "" = false ->
+  xs <> [] -> ys <> [] -> all_exist (bc s) xs -> all_exist (bc s) ys ->
+  exists rs s', run fresh (add_mul_karatsuba xs ys be) s = Ok (rs, s') /\
+    ext (bc s) (bc s') /\ inputs (bc s') = inputs (bc s) /\ outputs (bc s') = outputs (bc s) /\
+    length rs = mul_len (length xs) (length ys) /\
+    forall asg xv yv, bvals (bc s) asg xs xv -> bvals (bc s) asg ys yv ->
+      exists rv, bvals (bc s') asg rs rv /\ decode be rv = decode be xv * decode be yv.
+Proof. exact add_mul_karatsuba_total_exact. Qed.
+
+(* the private helper works on equal widths (what Karatsuba passes) or with a single-bit operand *)
+Theorem C08_last_step_total_exact : forall fresh, Injective fresh -> forall xs ys be s,
+  xs <> [] -> ys <> [] -> (length ys = length xs \/ length xs = 1%nat \/ length ys = 1%nat) ->
+  all_exist (bc s) xs -> all_exist (bc s) ys ->
+  exists rs s', run fresh (last_step_sum_with_new_powers_sum xs ys be) s = Ok (rs, s') /\
+    ext (bc s) (bc s') /\ inputs (bc s') = inputs (bc s) /\ outputs (bc s') = outputs (bc s) /\
+    length rs = mul_len (length xs) (length ys) /\
+    forall asg xv yv, bvals (bc s) asg xs xv -> bvals (bc s) asg ys yv ->
+      exists rv, bvals (bc s') asg rs rv /\ decode be rv = decode be xv * decode be yv.
+Proof. exact last_step_total_exact. Qed.
+
+(* add_square: the split recursion (n >= 48, n not in {49, 53}) terminates within the fuel n + 1 *)
+Theorem C08_square_total_exact : forall fresh, Injective fresh -> (forall k, fresh k <> ""%string) ->
+  forall xs be s, has_gate (bc s) "" = false -> xs <> [] -> all_exist (bc s) xs ->
+  exists rs s', run fresh (add_square xs be) s = Ok (rs, s') /\
+    ext (bc s) (bc s') /\ inputs (bc s') = inputs (bc s) /\ outputs (bc s') = outputs (bc s) /\
+    length rs = sq_len (length xs) /\
+    forall asg xv, bvals (bc s) asg xs xv ->
+      exists rv, bvals (bc s') asg rs rv /\ decode be rv = decode be xv * decode be xv.
+Proof. exact add_square_total_exact. Qed.
+
+Theorem C08_square_pow2_m1_total_exact : forall fresh, Injective fresh -> (forall k, fresh k <> ""%string) ->
+  forall xs be s, has_gate (bc s) "" = false -> xs <> [] -> all_exist (bc s) xs ->
+  exists rs s', run fresh (add_square_pow2_m1 xs be) s = Ok (rs, s') /\
+    ext (bc s) (bc s') /\ inputs (bc s') = inputs (bc s) /\ outputs (bc s') = outputs (bc s) /\
+    length rs = sq_len (length xs) /\
+    forall asg xv, bvals (bc s) asg xs xv ->
+      exists rv, bvals (bc s') asg rs rv /\ decode be rv = decode be xv * decode be xv.
+Proof. exact add_square_pow2_m1_total_exact. Qed.
 
 (* ---- non-vacuity: the hypotheses are satisfiable ---------------------------------------------------------------------- *)
 Definition demo_host : circuit :=
@@ -209,3 +301,23 @@ Example C08_nonvacuous_squares :
   is_ok (generate_mul hex_label 1 ["0"; "1"; "2"; "3"; "4"] 2 MWallace false) = true /\
   is_ok (generate_square hex_label 1 ["0"; "1"; "2"] SDefault true) = true.
 Proof. vm_compute. repeat split. Qed.
+
+(* the hypotheses of the `total_exact` theorems: an injective naming function that never yields "" or the
+   placeholder, a host in which neither is a gate, existing operands *)
+Example C08_nonvacuous_total :
+  Injective short_label /\ (forall k, short_label k <> ""%string) /\ (forall k, short_label k <> PLACEHOLDER_STR) /\
+  has_gate demo_host "" = false /\ has_gate demo_host PLACEHOLDER_STR = false /\
+  all_exist demo_host ["a"; "b"; "c"] /\ all_exist demo_host ["d"; "e"].
+Proof.
+  split; [exact short_label_injective|]. split; [exact short_label_nonempty'|].
+  split; [intros k; destruct k; discriminate|]. repeat split; repeat constructor.
+Qed.
+
+(* the placeholder side condition of C08_mul_wallace_exact is needed for the LENGTH too: with a naming function that
+   hands out '_PLACEHOLDER_STR_' (here for the second partial product) the 2 x 2 Wallace multiplier returns 3 labels *)
+Definition placeholder_at (j k : N) : label := if (k =? j)%N then PLACEHOLDER_STR else short_label k.
+
+Example C08_wallace_length_needs_the_placeholder_condition :
+  exists rs s', run (placeholder_at 2) (add_mul_wallace ["a"; "b"] ["d"; "e"] false) (mkB demo_host 1) = Ok (rs, s') /\
+    length rs = 3%nat /\ mul_len 2 2 = 4%nat /\ has_gate (bc s') PLACEHOLDER_STR = true.
+Proof. vm_compute. eexists _, _. repeat split. Qed.
